@@ -170,6 +170,16 @@ def run_property(pid, tier="quick", seed=0, only=None, verbose=False, do_bounded
                 violations.append("VIOLATION property=%s replay=%s bounded-case=%s" % (pid, path, f["signature"]))
             for u in bounded.get("undecided", []):
                 undecided.append("bounded: %s" % u)
+    # ---------------------------------------------------------------- engine lemmas (schematic inductions, proved each run)
+    if contracts:
+        from . import lemmas
+        lem = lemmas.prove_all()
+        for name, ok in lem:
+            obl_total += 1
+            obl_ok += 1 if ok else 0
+            if not ok:
+                undecided.append("engine lemma not proved: %s" % name)
+        cov["engine_lemmas"] = [{"lemma": n, "proved": ok} for n, ok in lem]
     # ---------------------------------------------------------------- evidence
     from .npmodel import ASSUMED
     if obl_total:
